@@ -55,6 +55,8 @@ def build_sandbox(base, variant):
     L('../k2/g', os.path.join(k1, 'flnk_sib'))
     L('sub', os.path.join(k1, 'flnk_dir'))
     L('../k1x/g', os.path.join(k1, 'flnk_px'))
+    L('../../outside/odir', os.path.join(k1, 'dlnk_out'))        # directory links inside a key directory: deleting the key
+    L('../k2', os.path.join(k1, 'dlnk_sib'))                     # removes the links, never what they point to
     if variant == 1:      # the storage directory itself is reached through a symlink
         os.rename(store, os.path.join(base, 'realstore'))
         os.symlink('realstore', store)
